@@ -6,7 +6,12 @@ C08 — conversions among graph, stabilizer and density-matrix forms preserve th
   * `state_to_graph` on all stabilizer states n <= 3 x gauges and random states: every returned (graph, gates) is validated by the
     Lean validator `stab.conv` (soundness theorem C08.state_to_graph_validator_sound): the gates map the state exactly onto the graph state;
   * `QuantumState.convert_representation` for all 9 ordered pairs and chained walks on graph states: the dense state is unchanged.
-Known finding D40: `state_to_graph` raises on many stabilizer states (Hadamard-position heuristic), keyed by its assertion.
+  * `state_to_graph` and `stabilizer_to_graph` are also MODELLED (Model/StateToGraph.lean, `stab.tograph` / `stab.s2g`): on every input
+    above the model's result (graph, gate list, error class) is compared exactly with the implementation's; theorem
+    C08.state_to_graph_sound then makes exactness of every returned result a theorem about the modelled code.
+Known finding D40: `state_to_graph` raises on many stabilizer states (Hadamard-position heuristic); the exact model raises too.
+Known finding D49: `state_to_graph` raises on some valid states only because `np.linalg.det(..).astype(int)` truncates a float
+determinant (3 computed as 2.9999999999999996 -> 2): the exact model returns, and so does the implementation once det/inv are exact.
 """
 import itertools
 
@@ -18,13 +23,81 @@ from harness.common import Driver, Result, err_class
 
 LEVEL = "proof"
 TRUSTED_BASE = [
-    "Lean 4.33 kernel; theorems of Properties/C08 (graph->generators for every n; CZ-on-|+..+> builds the graph generators; soundness of the conversion validator)",
-    "the floating-point parts (negativity-based edge detection, det*inv GF(2) inverses, density matrices) are compared numerically per input, not proved",
+    "Lean 4.33 kernel; theorems of Properties/C08 (graph->generators for every n; CZ-on-|+..+> builds the graph generators; soundness of the conversion validator; "
+    "soundness of the modelled state_to_graph / stabilizer_to_graph for every input and every candidate GF(2) inverse; round trip on graph states)",
+    "correspondence of Model/StateToGraph.lean with state_rep_conversion.py: exact comparison (graph, gate list, error class) on every generated input — testing, not proof",
+    "the floating-point parts of the density-matrix side (negativity-based edge detection, density matrices) are compared numerically per input, not proved",
     "harness dense reference (n <= 5) and independent signed-group canonicaliser",
 ]
-ASSUMPTIONS = ["density-matrix inputs are pure graph states; mixed-state lists are outside the quantifier"]
+ASSUMPTIONS = [
+    "density-matrix inputs are pure graph states; mixed-state lists are outside the quantifier",
+    "float GF(2) inverses: `np.linalg.det(x).astype(int) % 2` and `(det * inv % 2).astype(int)` are modelled by exact GF(2) elimination; they agree with the model "
+    "whenever the float determinant/adjugate entries are within truncation of the exact integers from above (|error| small AND not below the integer); where they "
+    "are not, the implementation raises (finding D49) — the soundness theorem holds for every candidate inverse, because the code re-checks x_inv @ x.T == I",
+    "n >= 1 (row_reduction does not terminate on a 0 x 0 matrix)",
+]
 
 KEY_D40 = "state_to_graph:position-finder:raises"
+KEY_D49 = "state_to_graph:float-determinant-truncated:raises"
+
+
+class ExactLinalg:
+    """context manager: np.linalg.det / np.linalg.inv computed exactly (rationals) for integer matrices — used only to classify an
+    implementation/model disagreement as the float artefact D49"""
+
+    def __enter__(self):
+        from fractions import Fraction
+
+        self.det, self.inv = np.linalg.det, np.linalg.inv
+
+        def elim(a):
+            a = np.asarray(a)
+            n = a.shape[0]
+            m = [[Fraction(int(a[i, j])) for j in range(n)] + [Fraction(int(i == j)) for j in range(n)] for i in range(n)]
+            det = Fraction(1)
+            for c in range(n):
+                p = next((i for i in range(c, n) if m[i][c] != 0), None)
+                if p is None:
+                    return Fraction(0), None
+                if p != c:
+                    m[c], m[p] = m[p], m[c]
+                    det = -det
+                det *= m[c][c]
+                pv = m[c][c]
+                m[c] = [v / pv for v in m[c]]
+                for i in range(n):
+                    if i != c and m[i][c] != 0:
+                        f = m[i][c]
+                        m[i] = [u - f * v for u, v in zip(m[i], m[c])]
+            return det, [[m[i][n + j] for j in range(n)] for i in range(n)]
+
+        def det(a):
+            return np.float64(int(elim(a)[0]))
+
+        def inv(a):
+            d, iv = elim(a)
+            if iv is None:
+                raise np.linalg.LinAlgError("Singular matrix")
+            return np.array([[int(d * v) for v in r] for r in iv], dtype=float) / float(int(d))
+
+        np.linalg.det, np.linalg.inv = det, inv
+        return self
+
+    def __exit__(self, *a):
+        np.linalg.det, np.linalg.inv = self.det, self.inv
+
+
+def impl_state_to_graph(tab):
+    """outcome of the real state_to_graph, canonicalised: ('ok', adjacency bits, gate token) | ('err', class, message)"""
+    from graphiq.backends import state_rep_conversion as rc
+
+    n = tab.n_qubits
+    try:
+        graph, _t2, gates = rc.state_to_graph(tab.copy())
+    except Exception as e:  # noqa: BLE001
+        return ("err", err_class(e), str(e)[:60])
+    gates = [tuple(int(a) if not isinstance(a, str) else a for a in g) for g in gates]
+    return ("ok", tu.bits(adj_of(graph, n)), su.circ_token(gates))
 
 
 def all_adj(n):
@@ -78,6 +151,8 @@ def check_graph(ctx, res, drv, adj, pending):
         pending.append((f"stab.same {su.stab_args(st, 'a')} {su.stab_args(graph_stab(adj), 'b')}", inp, "graph_to_stabilizer"))
     except Exception as e:  # noqa: BLE001
         res.violation(f"graph_to_stabilizer:raises:{err_class(e)}", "graph_to_stabilizer raised", input=inp)
+    # the edge list along which graph -> density applies its CZ gates (theorem graph_to_density_same_state_simple_graph is about this list)
+    pending.append((f"stab.edges n={n} a={tu.bits(adj)}", dict(inp, impl=",".join(f"{u}.{v}" for u, v in g.edges) or "-"), "edges:model"))
     # graph -> density, density -> graph
     if n <= 5:
         try:
@@ -93,13 +168,33 @@ def check_graph(ctx, res, drv, adj, pending):
     for _ in range(3):
         st2 = su.regauge_stab(graph_stab(adj), ctx.rng)
         try:
-            out = rc.stabilizer_to_graph(st2)
+            out = rc.stabilizer_to_graph(st2.copy())
+            pending.append((f"stab.s2g {su.stab_args(st2)}", dict(inp, stab=su.stab_args(st2), impl=("ok", tu.bits(adj_of(out[0][1], n)))), "stabilizer_to_graph:model"))
             if not np.array_equal(adj_of(out[0][1], n), adj):
                 res.violation("stabilizer_to_graph:wrong-graph", "stabilizer_to_graph does not recover G from |G> in another generating set",
                               input=dict(inp, stab=su.stab_args(st2)), impl=tu.bits(adj_of(out[0][1], n)))
         except Exception as e:  # noqa: BLE001
+            pending.append((f"stab.s2g {su.stab_args(st2)}", dict(inp, stab=su.stab_args(st2), impl=("err", err_class(e))), "stabilizer_to_graph:model"))
             res.violation(f"stabilizer_to_graph:raises:{err_class(e)}", f"stabilizer_to_graph raised on a generating set of |G>: {str(e)[:80]}",
                           input=dict(inp, stab=su.stab_args(st2)))
+    # a generating set of a state that is NOT |G> (one sign flipped): stabilizer_to_graph(validate=True) must not return a graph for it
+    if n >= 1:
+        from graphiq.backends.stabilizer.tableau import StabilizerTableau
+
+        st3 = su.regauge_stab(graph_stab(adj), ctx.rng)
+        ph = np.asarray(st3.phase).astype(int).copy()
+        ph[ctx.rng.randrange(n)] ^= 1
+        st3 = StabilizerTableau(np.asarray(st3.table).astype(int), ph)
+        inp3 = dict(inp, stab=su.stab_args(st3), case="sign-flipped")
+        try:
+            out = rc.stabilizer_to_graph(st3.copy())
+            g3 = adj_of(out[0][1], n)
+            pending.append((f"stab.s2g {su.stab_args(st3)}", dict(inp3, impl=("ok", tu.bits(g3))), "stabilizer_to_graph:model"))
+            if su.stab_canon_of(st3) != tu.span_canon(np.eye(n, dtype=int), g3, np.zeros(n, dtype=int)):
+                res.violation("stabilizer_to_graph:accepts-other-state", "stabilizer_to_graph(validate=True) returned a graph whose state is not the input state (a sign differs)",
+                              input=inp3, impl=tu.bits(g3))
+        except Exception as e:  # noqa: BLE001
+            pending.append((f"stab.s2g {su.stab_args(st3)}", dict(inp3, impl=("err", err_class(e))), "stabilizer_to_graph:model"))
     if adj.any():
         res.nontrivial("graph", inp["adjacency"])
 
@@ -114,28 +209,67 @@ def check_state_to_graph(ctx, res, drv, tab, pending, tag):
     res.evaluations += 1
     n = st.n_qubits
     res.count("sizes", f"n={n}" if n <= 6 else "n>6")
-    try:
-        graph, t2, gates = rc.state_to_graph(tab.copy())
-    except AssertionError as e:
-        if "not independent" in str(e):
-            # D40 (known finding): the Hadamard positions chosen by _position_finder leave the X part singular
-            res.count("errors", "D40:generators-not-independent")
-            res.violation(KEY_D40, "state_to_graph raises AssertionError('Stabilizer generators are not independent.') on a valid stabilizer state", input=inp)
-        else:
-            res.violation("state_to_graph:raises:assertion:" + str(e)[:30].replace(" ", "-"), f"state_to_graph raised AssertionError('{str(e)[:60]}')", input=inp)
+    out = impl_state_to_graph(tab)
+    # exact comparison with the model of state_to_graph (classification of raises happens in flush, where the model's answer is known)
+    pending.append((f"stab.tograph {su.stab_args(st)}", dict(inp, impl=out, _tab=tab), "state_to_graph:model"))
+    if out[0] != "ok":
         return
-    except Exception as e:  # noqa: BLE001
-        res.violation(f"state_to_graph:raises:{err_class(e)}", f"state_to_graph raised {err_class(e)}: {str(e)[:80]}", input=inp)
-        return
-    adj = adj_of(graph, n)
-    gates = [tuple(int(a) if not isinstance(a, str) else a for a in g) for g in gates]
     res.nontrivial(inp["stab"])
-    pending.append((f"stab.conv {su.stab_args(st)} gates={su.circ_token(gates)} a={tu.bits(adj)}", dict(inp, gates=su.circ_token(gates), graph=tu.bits(adj)), "state_to_graph"))
+    pending.append((f"stab.conv {su.stab_args(st)} gates={out[2]} a={out[1]}", dict(inp, gates=out[2], graph=out[1]), "state_to_graph"))
+
+
+def classify_raise(res, inp, impl, rep):
+    """the implementation raised on a valid stabilizer state (the property's completeness half fails): which known finding is it?"""
+    tab = inp.pop("_tab")
+    model_ok = rep["_status"] == "ok"
+    if impl[1] != "assertion":
+        res.violation(f"state_to_graph:raises:{impl[1]}", f"state_to_graph raised {impl[1]}: {impl[2]}", input=inp)
+        return model_ok is False and rep["_raw"].split()[1] == impl[1]
+    if not model_ok:
+        # D40: with exact GF(2) arithmetic the conversion fails too — the Hadamard positions of _position_finder leave the X part singular
+        res.count("errors", "D40:position-finder")
+        res.violation(KEY_D40, f"state_to_graph raises AssertionError('{impl[2]}') on a valid stabilizer state (so does the exact model: _position_finder)", input=inp)
+        return rep["_raw"].split()[1] == "assertion"
+    # the exact model returns: is floating point the only difference?
+    with ExactLinalg():
+        again = impl_state_to_graph(tab)
+    if again[0] == "ok" and (again[1], again[2]) == (rep.get("a"), rep.get("gates")):
+        res.count("errors", "D49:float-determinant")
+        res.violation(KEY_D49, f"state_to_graph raises AssertionError('{impl[2]}') on a valid stabilizer state although exact arithmetic converts it: "
+                      "np.linalg.det(x).astype(int) truncates the float determinant", input=dict(inp, exact_result=again))
+        return True
+    return False
 
 
 def flush(res, drv, pending):
     for rep, (ln, inp, what) in zip(drv.batch([p[0] for p in pending]), pending):
-        if rep["_status"] != "ok":
+        if what == "state_to_graph:model":
+            impl = inp.pop("impl")
+            model = ("ok", rep.get("a"), rep.get("gates")) if rep["_status"] == "ok" else ("err", rep["_raw"].split()[1])
+            if impl[0] == "ok":
+                inp.pop("_tab")
+                same = model == impl
+            else:
+                same = classify_raise(res, inp, impl, rep)
+            if same:
+                res.traces_validated += 1
+                res.branch(["s2g:" + ("ok:h=%d" % (0 if rep.get("h") == "-" else len(rep.get("h").split(","))) if model[0] == "ok" else "err:" + rep["_raw"].split()[-1])])
+            else:
+                res.exact_break("state_to_graph", input=inp, impl=list(impl), model=rep["_raw"][:300])
+        elif what == "edges:model":
+            impl = inp.pop("impl")
+            if rep["_status"] == "ok" and rep.get("edges") == impl:
+                res.traces_validated += 1
+            else:
+                res.exact_break("graph_to_density:edge-list", input=inp, impl=impl, model=rep["_raw"][:300])
+        elif what == "stabilizer_to_graph:model":
+            impl = inp.pop("impl")
+            model = ("ok", rep.get("a")) if rep["_status"] == "ok" else ("err", rep["_raw"].split()[1])
+            if model == tuple(impl):
+                res.traces_validated += 1
+            else:
+                res.exact_break("stabilizer_to_graph", input=inp, impl=list(impl), model=rep["_raw"][:300])
+        elif rep["_status"] != "ok":
             res.violation(f"{what}:validator-error", "the verified validator could not run", input=inp, model=rep["_raw"][:200])
         elif what == "state_to_graph" and rep.get("conv") != "1":
             res.violation("state_to_graph:gates-do-not-map-to-graph-state", "the returned single-qubit gates do not map the state exactly onto the returned graph's state (verified semantics)",
@@ -253,6 +387,8 @@ def check_node_order(ctx, res, adj):
 
 
 D40_WITNESS = "n=1 x=0 z=1 r=0"
+# smallest witness found for D49 (5 qubits): float det*inv of the X part after the Hadamards is not integral enough for astype(int)
+D49_WITNESS = "n=5 x=0000000000000001100000000 z=1111000011001010101011001 r=00110"
 
 
 def run(ctx, budget=1.0):
@@ -268,6 +404,7 @@ def run(ctx, budget=1.0):
     pending = []
     # corpus: D40 witness (one-qubit |0>)
     check_state_to_graph(ctx, res, drv, stab_of_args(D40_WITNESS), pending, "corpus:D40")
+    check_state_to_graph(ctx, res, drv, stab_of_args(D49_WITNESS), pending, "corpus:D49")
     nmax = 4 if ctx.quick else 5
     for n in range(1, nmax + 1):
         for adj in all_adj(n):
